@@ -482,30 +482,35 @@ structure FormState where
   files : List FileItem := []
 deriving Repr
 
+/-- `field_size += len(event.data); if field_size > max_form_memory_size: raise` (only with a limit
+and only for non-file parts, where `field_size` is not `None`) -/
+def fieldSizeStep (maxMem : Option Nat) (fieldSize : Option Nat) (n : Nat) : Except String (Option Nat) :=
+  match maxMem, fieldSize with
+  | some m, some sz => if sz + n > m then .error "RequestEntityTooLarge" else .ok (some (sz + n))
+  | _, fsz => .ok fsz
+
 /-- one iteration of the `while not isinstance(event, (Epilogue, NeedData))` body -/
 def formEvent (maxMem : Option Nat) (st : FormState) : Event → Except String FormState
   | .field n h => .ok { st with cur := some ⟨false, n, none, h, []⟩, fieldSize := some 0 }
   | .file n f h => .ok { st with cur := some ⟨true, n, some f, h, []⟩, fieldSize := none }
   | .data d more =>
-    let fs : Except String (Option Nat) :=
-      match maxMem, st.fieldSize with
-      | some m, some sz => if sz + d.length > m then .error "RequestEntityTooLarge" else .ok (some (sz + d.length))
-      | _, fsz => .ok fsz
-    match fs, st.cur with
-    | .error e, _ => .error e
-    | .ok _, none => .error "UnboundLocalError"
-    | .ok fsz, some p =>
-      let p' := { p with payload := p.payload ++ d }
-      if more then .ok { st with cur := some p', fieldSize := fsz }
-      else if p'.isFile then
-        .ok { st with cur := some p', fieldSize := fsz,
-                      files := st.files ++ [⟨p'.name, p'.filename.getD [], p'.headers, p'.payload⟩] }
-      else
-        match partCharset p'.headers with
-        | .error e => .error e
-        | .ok cs =>
+    match fieldSizeStep maxMem st.fieldSize d.length with
+    | .error e => .error e
+    | .ok fsz =>
+      match st.cur with
+      | none => .error "UnboundLocalError"
+      | some p =>
+        let p' := { p with payload := p.payload ++ d }
+        if more then .ok { st with cur := some p', fieldSize := fsz }
+        else if p'.isFile then
           .ok { st with cur := some p', fieldSize := fsz,
-                        fields := st.fields ++ [(p'.name, decodeCharset cs p'.payload)] }
+                        files := st.files ++ [⟨p'.name, p'.filename.getD [], p'.headers, p'.payload⟩] }
+        else
+          match partCharset p'.headers with
+          | .error e => .error e
+          | .ok cs =>
+            .ok { st with cur := some p', fieldSize := fsz,
+                          fields := st.fields ++ [(p'.name, decodeCharset cs p'.payload)] }
   | _ => .ok st
 
 def formEvents (maxMem : Option Nat) : FormState → List Event → Except String FormState
